@@ -211,7 +211,7 @@ struct Gen {
       if (g.chance(0.04)) op("halfrate").set("flag", (int64_t)g.below(2));
       if (u < 0.25) { seek_op("", false); if (g.chance(0.7)) read_op(0, 2); }
       else if (u < 0.32) { op("pcm_seek").set("a", g.chance(0.5) ? sr.total : std::max<int64_t>(0, sr.total - (int64_t)g.below(300))); if (g.chance(0.5)) read_op(0, 3); }
-      else if (u < 0.42) { Rec &r = op("crosslap"); r.set("a", pick_pos()); if (g.chance(0.4)) r.set("hrb", (int64_t)g.below(2));
+      else if (u < 0.42) { Rec &r = op("crosslap"); r.set("a", pick_pos()); if (g.chance(0.4)) r.set("hrb", (int64_t)g.below(2)); if (g.chance(0.06)) r.set("self", 1);
         if (g.chance(0.35)) r.set("bhist", 1).set("brd", (int64_t)(g.chance(0.5) ? g.range(0, 600) : g.range(600, 9000))); }   // the second handle got where it is by a lapped seek and reads, not by a plain seek
       else if (u < 0.45 && sr.nlinks > 1) { int l = (int)g.range(1, sr.nlinks - 1); op("pcm_seek").set("a", std::max<int64_t>(0, sr.start[l] - (int64_t)g.below(200))); read_op(0, 2); seek_op("_lap", g.chance(0.1)); }
       else if (u < 0.50) {   // a seek that fails once dumps the decode state and leaves the read cursor where it was; the lapped seek that follows has to find out where that is
@@ -329,10 +329,11 @@ struct Gen {
       double u = g.unit();
       if (u < 0.35) read_op(0.3, 6);
       else if (u < 0.6) seek_op(g.chance(0.25) ? "_lap" : "", true, 0.15);
-      else if (u < 0.68) op("tells");
+      else if (u < 0.67) { Rec &r = op("tells"); if (g.chance(0.3)) r.set("clearagain", 1); }
+      else if (u < 0.68) op("clear").set("twice", (int64_t)g.below(2));   // the application clears the handle and goes on calling: every later op meets a closed handle
       else if (u < 0.78) op("info").set("i", (int64_t)g.range(-2, sr.nlinks + 1));
       else if (u < 0.86) op("halfrate").set("flag", (int64_t)g.below(2));
-      else if (u < 0.89 && seekable) { Rec &r = op("crosslap"); r.set("a", pick_pos()); if (g.chance(0.6)) r.set("hrb", (int64_t)g.below(2)); if (g.chance(0.4)) r.set("rep", (int64_t)g.range(2, 5)); }
+      else if (u < 0.89 && seekable) { Rec &r = op("crosslap"); r.set("a", pick_pos()); if (g.chance(0.6)) r.set("hrb", (int64_t)g.below(2)); if (g.chance(0.4)) r.set("rep", (int64_t)g.range(2, 5)); if (g.chance(0.08)) r.set("self", 1); }
       else if (u < 0.92) linear_read(true);
       else { Rec &r = op("pcm_seek"); r.set("a", pick_pos()); }
     }
